@@ -135,48 +135,67 @@ def s2_candidates():
     return out
 
 
-S3_SIG = ["type A;", "pred r(A);", "pred s(A);", "pred t(A);"]
+S3_SIG = ["type A;", "pred r(A);", "pred s(A);", "pred t(A);", "func f(A) -> A;"]
+# binder sequences: (atom text, variables it binds)
+S3_BINDERS = [
+    ("", [("r(x)", "x"), ("s(y)", "y"), ("t(z)", "z")], False),
+    # x and y bound together by a function atom (its result variable is a second name for a term over x)
+    ("f", [("y = f(x)", "xy"), ("t(z)", "z")], True),
+    ("g", [("t(z)", "z"), ("f(x) = y", "xy")], True),
+]
 
 
 def s3_theories():
-    """S3 (premise equalities): binders r(x); s(y); t(z) in this order, with one or two equalities between
-    variables (both orientations) inserted at every position at which both sides are already bound."""
+    """S3 (premise equalities): a sequence of binders - r(x); s(y); t(z), or a function atom binding x and y plus t(z),
+    in both orders - with one or two equalities between variables (both orientations) inserted at every position at
+    which both sides are already bound. For the function-atom binders only the rules whose two equalities connect all
+    three variables are generated."""
     eqs = [("x", "y"), ("y", "x"), ("y", "z"), ("z", "y"), ("x", "z"), ("z", "x")]
-    def earliest(e):
-        return 3 if "z" in e else 2
-    rules = []
-    for e in eqs:
-        for pos in range(earliest(e), 4):
-            rules.append([(pos, e)])
-    for e1 in eqs:
-        for e2 in eqs:
-            if e1 == e2:
-                continue
-            for p1 in range(earliest(e1), 4):
-                for p2 in range(max(p1, earliest(e2)), 4):
-                    rules.append([(p1, e1), (p2, e2)])
-    binders = ["r(x)", "s(y)", "t(z)"]
     out = []
-    for start in range(0, len(rules), BUNDLE):
-        chunk = rules[start:start + BUNDLE]
-        k = start // BUNDLE
-        name = f"s_eq_{'abcdefghijklmnopqrstuvwxyz'[k // 26]}{'abcdefghijklmnopqrstuvwxyz'[k % 26]}"
-        lines = list(S3_SIG)
-        body, wit = [], []
-        for ri, placed in enumerate(chunk):
-            w = f"w{'abcd'[ri]}"
-            wit.append(w)
-            lines.append(f"pred {w}(A, A, A);")
-            body.append(f"rule r{'abcd'[ri]} {{")
-            for i, b in enumerate(binders):
-                body.append(f"    if {b};")
-                for pos, (a, c) in placed:
-                    if pos == i + 1:
-                        body.append(f"    if {a} = {c};")
-            body.append(f"    then {w}(x, y, z);")
-            body.append("}")
-        meta = {"no_insert": wit, "menu_rels": ["r", "s", "t"], "sweep": "S3", "max_defines": 0, "elem_cap": 2, "depth_quick": 4, "depth_thorough": 5}
-        out.append((name, "//@ " + json.dumps(meta) + "\n" + "\n".join(lines + body) + "\n"))
+    for tag, binders, connected_only in S3_BINDERS:
+        bound_at = {}
+        for i, (_, vs) in enumerate(binders):
+            for v in vs:
+                bound_at.setdefault(v, i + 1)
+        n = len(binders)
+
+        def earliest(e):
+            return max(bound_at[e[0]], bound_at[e[1]])
+        rules = []
+        if not connected_only:
+            for e in eqs:
+                for pos in range(earliest(e), n + 1):
+                    rules.append([(pos, e)])
+        for e1 in eqs:
+            for e2 in eqs:
+                if e1 == e2:
+                    continue
+                if connected_only and set(e1) | set(e2) != {"x", "y", "z"}:
+                    continue
+                for p1 in range(earliest(e1), n + 1):
+                    for p2 in range(max(p1, earliest(e2)), n + 1):
+                        rules.append([(p1, e1), (p2, e2)])
+        for start in range(0, len(rules), BUNDLE):
+            chunk = rules[start:start + BUNDLE]
+            k = start // BUNDLE
+            name = f"s_eq{tag}_{'abcdefghijklmnopqrstuvwxyz'[k // 26]}{'abcdefghijklmnopqrstuvwxyz'[k % 26]}"
+            lines = list(S3_SIG)
+            body, wit = [], []
+            for ri, placed in enumerate(chunk):
+                w = f"w{'abcd'[ri]}"
+                wit.append(w)
+                lines.append(f"pred {w}(A, A, A);")
+                body.append(f"rule r{'abcd'[ri]} {{")
+                for i, (btxt, _) in enumerate(binders):
+                    body.append(f"    if {btxt};")
+                    for pos, (a, c) in placed:
+                        if pos == i + 1:
+                            body.append(f"    if {a} = {c};")
+                body.append(f"    then {w}(x, y, z);")
+                body.append("}")
+            used = ["r", "s", "t"] if not tag else ["t", "f"]
+            meta = {"no_insert": wit, "menu_rels": used, "sweep": "S3", "max_defines": 1 if tag else 0, "elem_cap": 2, "depth_quick": 4, "depth_thorough": 5}
+            out.append((name, "//@ " + json.dumps(meta) + "\n" + "\n".join(lines + body) + "\n"))
     return out
 
 
